@@ -154,7 +154,7 @@ def check_props_file(pid, allow_axioms=()):
         if b.startswith("Closed under"):
             res["discharged"] += 1
         else:
-            names = re.findall(r'^([A-Za-z0-9_.\']+)\s*:', b, re.M)
+            names = re.findall(r'^([A-Za-z0-9_.\']+)\s*:', b.split('\n', 1)[1] if '\n' in b else '', re.M)
             res["axioms"][name] = names
             if all(n in allow_axioms for n in names):
                 res["discharged"] += 1
